@@ -110,6 +110,32 @@ def _box2(tier):
                            "passes": 1}
 
 
+def _scan_cases(tier):
+    """Step-size scan as a GENERATOR (as in C05): every block length L and unit count whose step size
+    n_advance(L, units, trajectory) is not locally optimal against the closed form becomes a TwoLevel
+    case - a full block of that length, and that length as the partial last block. Only the stream's
+    per-block step count decides. Block lengths reach far beyond what the box can enumerate."""
+    from .c05 import _advance_scan
+    LMAX, SMAX = (400, 10) if tier == "quick" else (1200, 24)
+    scan = R.pmap(_advance_scan, [(lo, min(lo + 24, LMAX), SMAX) for lo in range(2, LMAX + 1, 25)], chunksize=1)
+    cands = sorted(set(c for _, part in scan for c in part))
+    cases = []
+    for (L, units, tr) in cands[:120]:
+        stg = "RAM" if (L + units) % 2 else "DISK"
+        cases.append({"cls": "TwoLevel", "period": L, "b": units - 1, "storage": stg, "traj": tr, "n": L, "passes": 1})
+        cases.append({"cls": "TwoLevel", "period": L + 3, "b": units - 1, "storage": stg, "traj": tr, "n": 2 * L + 3, "passes": 1})
+    return {"sub_problems": sum(c for c, _ in scan), "block_length_max": LMAX, "units_max": SMAX, "candidates_confirmed_by_stream": len(cands)}, cases
+
+
+def _long_blocks(tier):
+    """A sparse ladder of long blocks (the box stops at period 12/64): both trajectories."""
+    LS = (72, 100, 143, 200, 256, 257, 330) if tier == "quick" else (72, 100, 113, 143, 169, 200, 241, 256, 257, 300, 330, 512, 700)
+    for L in LS:
+        for b in (1, 2, 4, 5, 6, 7, 9):
+            for tr in ("maximum", "revolve"):
+                yield {"cls": "TwoLevel", "period": L, "b": b, "storage": "RAM" if (L + b) % 2 else "DISK", "traj": tr, "n": L + (L // 3 if b % 2 else 0), "passes": 1}
+
+
 def run(prop, args):
     rep = R.Report(prop, args, RULE)
     if args.replay:
@@ -126,13 +152,18 @@ def run(prop, args):
                 R.harness_error("closed form != search at n=%d s=%d" % (n, s))
     box = list(_box(tier))
     box2 = list(_box2(tier))
-    res = R.pmap(_case, box + box2)
+    scan_info, scan_cases = _scan_cases(tier)
+    rep.extra["step_size_scan"] = scan_info
+    longb = list(_long_blocks(tier))
+    res = R.pmap(_case, box + box2 + scan_cases + longb)
     count = 500 if tier == "quick" else 6000
     res += [x for part in R.pmap(_gen, [(tier, args.seed, k, count) for k in range(16)], chunksize=1) for x in part]
     rep.exhaustive = [{"box": "period<=%d, binomial_snapshots<=%d, both storages, both trajectories, n<=%d, passes 1..3" % ((6, 4, 24) if tier == "quick" else (12, 6, 72)),
                        "cases": len(box), "exhaustive": True},
                       {"box": "one full block + every partial last block: period %d..%d, binomial_snapshots in %s, both trajectories" % (
-                          (17, 40, [2, 3, 4]) if tier == "quick" else (13, 64, [1, 2, 3, 4, 5, 6])), "cases": len(box2), "exhaustive": True}]
+                          (17, 40, [2, 3, 4]) if tier == "quick" else (13, 64, [1, 2, 3, 4, 5, 6])), "cases": len(box2), "exhaustive": True},
+                      {"box": "ladder of long blocks (period 72..%d, binomial_snapshots in {1,2,4,5,6,7,9}, both trajectories) + blocks proposed by the step-size scan" % (330 if tier == "quick" else 700),
+                       "cases": len(longb) + len(scan_cases), "exhaustive": False}]
     blocks = 0
     for out in res:
         cfg = out["cfg"]
@@ -141,7 +172,7 @@ def run(prop, args):
             rep.inconclusive += 1
             continue
         blocks += out["blocks"]
-        rep.count("hist", "period=%s" % ("1" if cfg["period"] == 1 else "2" if cfg["period"] == 2 else "3-6" if cfg["period"] <= 6 else ">6"))
+        rep.count("hist", "period=%s" % ("1" if cfg["period"] == 1 else "2" if cfg["period"] == 2 else "3-6" if cfg["period"] <= 6 else "7-64" if cfg["period"] <= 64 else ">64"))
         if out["nontrivial"]:
             rep.nontrivial.add(C.chash(cfg))
             if len(rep.nontrivial) % 307 == 1:
